@@ -255,12 +255,13 @@ fn wide_ops(ty: &str) -> Vec<(String, String)> {
         ]);
         if ty != "i128" {
             v.push("wide_mul");
+            v.push("wide_square");
         }
     } else {
         v.extend([
             "add", "sub", "mul", "div", "rem", "divrem", "overflowing_add", "overflowing_sub", "overflowing_mul",
             "wrapping_add", "wrapping_sub", "wrapping_mul", "checked_add", "checked_sub", "checked_mul",
-            "saturating_add", "saturating_sub", "saturating_mul", "wide_mul", "eq", "ne", "lt", "le", "gt", "ge",
+            "saturating_add", "saturating_sub", "saturating_mul", "wide_mul", "wide_square", "eq", "ne", "lt", "le", "gt", "ge",
             "and", "or", "xor", "not", "sqrt", "pow",
         ]);
         if ty == "u256" {
@@ -863,6 +864,7 @@ fn big_math(op: &str, ty: &str, to: &str, a: &[BigInt]) -> Exp {
             Exp::Ok(flat(ty, &if e > hi(ty) { hi(ty) } else if e < lo(ty) { lo(ty) } else { e }))
         }
         "wide_mul" => Exp::Ok(flat(wider(ty), &(x * y))),
+        "wide_square" => Exp::Ok(flat(wider(ty), &(x * x))),
         "eq" => Exp::Ok(vec![b2i(x == y)]),
         "ne" => Exp::Ok(vec![b2i(x != y)]),
         "lt" => Exp::Ok(vec![b2i(x < y)]),
